@@ -42,8 +42,8 @@ class Side:
         me = self
 
         class Pub:
-            def __init__(self, pid, items, direction):
-                self.pid, self.items, self.direction = pid, list(items), direction
+            def __init__(self, pid, items, direction, fail=False):
+                self.pid, self.items, self.direction, self.fail = pid, list(items), direction, fail
                 self.credit, self.sub, self.done, self.cancelled = 0, None, False, False
 
             def subscribe(self, subscriber):
@@ -67,12 +67,19 @@ class Side:
                     self.credit -= 1
                     k -= 1
                     did = True
-                    self.sub.on_next(p, last and (self.pid % 2 == 0))
-                    if last and self.pid % 2 == 0:
+                    self.sub.on_next(p, last and (self.pid % 2 == 0) and not self.fail)
+                    if last and self.pid % 2 == 0 and not self.fail:
                         self.done = True
+                    if last and self.fail:
+                        # the publisher fails right after its last element: the error must not overtake that element
+                        self.done = True
+                        self.sub.on_error(RuntimeError('publisher failed'))
                 if not self.items and not self.done and not self.cancelled:
                     self.done = True
-                    self.sub.on_complete()
+                    if self.fail:
+                        self.sub.on_error(RuntimeError('publisher failed'))
+                    else:
+                        self.sub.on_complete()
                     did = True
                 return did
         self.Pub = Pub
@@ -124,13 +131,13 @@ class Side:
                 pid = pid_of(payload)
                 plan = other.plans[pid]
                 me.got.setdefault((pid, 'req'), []).append(key(payload))
-                return Pub(pid, [pay(plan['tag'] + 60 + i, d, m) for i, (d, m) in enumerate(plan['items'])], 'resp')
+                return Pub(pid, [pay(plan['tag'] + 60 + i, d, m) for i, (d, m) in enumerate(plan['items'])], 'resp', plan.get('fail_resp', False))
 
             async def request_channel(self, payload):
                 pid = pid_of(payload)
                 plan = other.plans[pid]
                 me.got.setdefault((pid, 'req'), []).append(key(payload))
-                pub = Pub(pid, [pay(plan['tag'] + 60 + i, d, m) for i, (d, m) in enumerate(plan['items'])], 'resp')
+                pub = Pub(pid, [pay(plan['tag'] + 60 + i, d, m) for i, (d, m) in enumerate(plan['items'])], 'resp', plan.get('fail_resp', False))
                 sub = Sub(pid, 'up')
                 orig = sub.on_subscribe
 
@@ -167,7 +174,7 @@ class Side:
             sub = self.Sub(pid, 'resp')
             ep.request_stream(req).initial_request_n(plan['n0']).subscribe(sub)
         else:
-            pub = self.Pub(pid, [pay(t + 100 + i, d, m) for i, (d, m) in enumerate(plan['up'])], 'up')
+            pub = self.Pub(pid, [pay(t + 100 + i, d, m) for i, (d, m) in enumerate(plan['up'])], 'up', plan.get('fail_up', False))
             sub = self.Sub(pid, 'resp')
             ep.request_channel(req, pub).initial_request_n(plan['n0']).subscribe(sub)
 
@@ -220,6 +227,7 @@ class C01(Prop):
             p['rd'], p['rm'] = sz()
             p['items'] = [sz() for _ in range(rng.choice([0, 1, 2, 4]))]
             p['up'] = [sz() for _ in range(rng.choice([0, 1, 3]))]
+            p['fail_resp'], p['fail_up'] = rng.random() < 0.25, rng.random() < 0.25
             if kind == 'mp' and p['qm'] == 0:
                 p['qm'] = 1
             plans[side][pid] = p
